@@ -32,7 +32,7 @@ ASSUMPTIONS = [
 ]
 REQUIRED_MONITORS = ["orbits", "orbit_cardinality", "event_cardinality", "conversions", "event_to_sample.weights",
                      "grow", "swap", "shrink", "clique.search", "c_0", "c_1", "resize", "subgraph.search",
-                     "sample.helpers"]
+                     "sample.helpers", "clique.search:selection-rule"]
 
 
 # ---- harness-side reference implementations ------------------------------------------------------
@@ -150,6 +150,64 @@ def shrink_reachable(graph, start, result, mode, w):
         if ok:
             return True
     return False
+
+
+def search_results(graph, start, iterations, mode, w, cap=4000):
+    """All cliques the documented local search (growth phase by the selection rule, then one swap by the selection rule,
+    repeated `iterations` times or until grown == swapped) can return, over every way of settling ties.  None when more than
+    `cap` intermediate states would have to be explored."""
+    budget = [cap]
+    grow_memo, swap_memo = {}, {}
+
+    def grow_all(cur):
+        if cur in grow_memo:
+            return grow_memo[cur]
+        budget[0] -= 1
+        if budget[0] < 0:
+            raise OverflowError
+        allowed = score_sets(graph, c0_bf(graph, cur), mode, w)
+        if not allowed:
+            out = {cur}
+        else:
+            out = set()
+            for n in allowed:
+                out |= grow_all(cur | {n})
+        grow_memo[cur] = out
+        return out
+
+    def swap_all(cl):
+        if cl in swap_memo:
+            return swap_memo[cl]
+        pairs = c1_bf(graph, cl)
+        if not pairs:
+            out = {cl}
+        else:
+            allowed = set(score_sets(graph, [n for _, n in pairs], mode, w))
+            out = {(cl - {c}) | {n} for c, n in pairs if n in allowed}
+        swap_memo[cl] = out
+        return out
+
+    finals = set()
+    seen = set()
+    stack = [(frozenset(start), iterations)]
+    try:
+        while stack:
+            cur, it = stack.pop()
+            if (cur, it) in seen:
+                continue
+            seen.add((cur, it))
+            budget[0] -= 1
+            if budget[0] < 0:
+                raise OverflowError
+            for grown in grow_all(cur):
+                for swapped in swap_all(grown):
+                    if swapped == grown or it - 1 == 0:
+                        finals.add(swapped)
+                    else:
+                        stack.append((swapped, it - 1))
+    except OverflowError:
+        return None
+    return finals
 
 
 def resize_chain_reachable(graph, chain, mode, w, growing):
@@ -498,6 +556,20 @@ def run_case(case, rep, mods, rng):
         elif len(res) < len(set(cl)):
             V("clique.search", "shrunk", "search(%s) = %s is smaller than its seed" % (cl, res))
         # (maximality is not promised: the last step of search is a swap, after which growth may be possible)
+        else:
+            # the result must be one the documented search can return under the requested selection rule in *every*
+            # iteration (all ways of settling ties explored)
+            finals = search_results(g, cl, case["iterations"], mode if mode != "weight" else "weight", w)
+            if finals is None:
+                rep.observe("clique.search.rule-not-judged:state-space-above-cap")
+            else:
+                rep.monitor("clique.search:selection-rule")
+                if case["iterations"] >= 2:
+                    rep.observe("clique.search.rule-judged:iterations>=2:%s" % mode)
+                if frozenset(res) not in finals:
+                    V("clique.search", "selection-rule", "search(%s, iterations=%d, node_select=%s) = %s is not among the %d cliques "
+                      "the documented growth / swap rule can produce (e.g. %s)" % (cl, case["iterations"], mode, sorted(res), len(finals),
+                                                                                   sorted(sorted(f) for f in finals)[:3]))
         return
 
     if kind == "resize":
